@@ -27,8 +27,8 @@ echo "RESULT $ID/$X crate=$CRATE demo=$NAME clean_rc=$clean_rc patched_rc=$patch
 ok=0
 if [ "$clean_rc" = 0 ] && [ "$patched_rc" != 0 ] && [ "$failing" = "tests::compile::fonttools_tests,tests::compile::import_resolution,tests::compile::should_pass" ]; then ok=1; fi
 if [ $ok = 1 ]; then
-  D="$HERE/seeded/$ID/$X"; mkdir -p "$D"; cp "$SRC"/* "$D"/
-  python3 - "$ID" "$X" "$CRATE" "$NAME" "$clean_rc" "$patched_rc" "$passed" "$failed" "$D" <<'PY'
+  DEST="${4:-$X}"; D="$HERE/seeded/$ID/$DEST"; mkdir -p "$D"; cp "$SRC"/* "$D"/ 2>/dev/null
+  python3 - "$ID" "${4:-$X}" "$CRATE" "$NAME" "$clean_rc" "$patched_rc" "$passed" "$failed" "$D" <<'PY'
 import json,sys,re
 i,x,crate,name,c,p,pa,fa,d=sys.argv[1:]
 notes=open(d+'/notes.md').read()
